@@ -108,7 +108,9 @@ func (clnt *Clnt) Rpcnb(r *Req) error {
 	clnt.reqlast = r
 	clnt.Unlock()
 
+	verifPoint("rpcnb.enqueued", clnt, r)
 	clnt.reqout <- r
+	verifPoint("rpcnb.handoff", clnt, r)
 	return nil
 }
 
@@ -166,6 +168,7 @@ func (clnt *Clnt) recv() {
 			}
 
 			fc, fcsize, err := Unpack(buf, clnt.Dotu)
+			verifPoint("clnt.recv.frame", clnt, fc)
 			clnt.Lock()
 			if err != nil {
 				clnt.err = err
@@ -223,6 +226,7 @@ func (clnt *Clnt) recv() {
 				}
 			}
 
+			verifPoint("clnt.recv.deliver", clnt, r)
 			if r.Done != nil {
 				r.Done <- r
 			}
@@ -233,6 +237,7 @@ func (clnt *Clnt) recv() {
 	}
 
 closed:
+	verifPoint("clnt.recv.closed", clnt)
 	clnt.done <- true
 
 	/* send error to all pending requests */
@@ -245,6 +250,7 @@ closed:
 	}
 	clnt.Unlock()
 	for ; r != nil; r = r.next {
+		verifPoint("clnt.recv.fanout", clnt, r)
 		r.Err = err
 		if r.Done != nil {
 			r.Done <- r
@@ -277,6 +283,7 @@ func (clnt *Clnt) send() {
 			return
 
 		case req := <-clnt.reqout:
+			verifPoint("clnt.send.take", clnt, req)
 			if clnt.Debuglevel > 0 {
 				clnt.logFcall(req.Tc)
 				if clnt.Debuglevel&DbgPrintPackets != 0 {
